@@ -165,6 +165,7 @@ type runCfg struct {
 	FailMut  int    `json:"fail_mut"`  // which mutation of that op (0 = first)
 	FailMode int    `json:"fail_mode"` // failBeforeApply | failAfterApply
 	Sparse   bool   `json:"sparse"`    // compare only around the failing op and at the end
+	Restart  int    `json:"restart"`   // >0: after every Restart-th call the gater is replaced by a fresh one on a copy of the datastore ("restart"), and the history continues on it
 }
 
 type outcome struct {
@@ -225,7 +226,7 @@ func runHistory(h history, cfg runCfg, st stats) outcome {
 			d.Sig += "/after-" + h.Ops[step].Kind.String()
 		}
 		if rec != nil {
-			out.DSLog = rec.eventsCopy()
+			out.DSLog = append(out.DSLog, rec.eventsCopy()...)
 		}
 		return out
 	}
@@ -290,6 +291,18 @@ func runHistory(h history, cfg runCfg, st stats) outcome {
 			}
 		}
 
+		if rec != nil && cfg.Restart > 0 && i%cfg.Restart == cfg.Restart-1 {
+			// restart on the same datastore; all later calls go to the reloaded gater
+			out.DSLog = append(out.DSLog, rec.eventsCopy()...)
+			nrec := fromImage(rec.snapshot())
+			ng, err := conngater.NewBasicConnectionGater(nrec)
+			if err != nil {
+				return fail(&disagreement{Sig: "restart/constructor-error", Msg: fmt.Sprintf("restart after op %d failed: %v", i, err)}, i)
+			}
+			rec, g = nrec, ng
+			livePhase = "restarted"
+			st.add("crash.restarts_midhistory", 1)
+		}
 		check := !cfg.Sparse || i == cfg.FailOp || i == cfg.FailOp+1 || i == len(h.Ops)-1
 		// crash points: the image right after each mutation of this call. The call had not returned:
 		// its own rule may be either way, every other rule as after the calls that HAD returned.
@@ -328,7 +341,7 @@ func runHistory(h history, cfg runCfg, st stats) outcome {
 		}
 	}
 	if rec != nil {
-		out.DSLog = rec.eventsCopy()
+		out.DSLog = append(out.DSLog, rec.eventsCopy()...)
 	}
 	return out
 }
